@@ -745,7 +745,7 @@ fn parse_args(a: &[String]) -> Args {
             "--lite" => out.lite = true,
             "--uninit" => ops::UNINIT_BUFFERS.store(true, std::sync::atomic::Ordering::Relaxed),
             "--records" => out.records = true,
-            other if !other.starts_with("--") => out.file = Some(other.to_string()),
+            other if other == "-" || !other.starts_with("--") => out.file = Some(other.to_string()),
             other => {
                 eprintln!("HARNESS: unknown argument {}", other);
                 std::process::exit(2);
@@ -761,10 +761,22 @@ fn parse_args(a: &[String]) -> Args {
 }
 
 fn read_trace(path: &str) -> (BTreeMap<String, String>, Vec<Event>) {
-    let text = std::fs::read_to_string(path).unwrap_or_else(|e| {
-        eprintln!("HARNESS: cannot read {}: {}", path, e);
-        std::process::exit(2);
-    });
+    // "-" = standard input.  Under the interpreter the trace always comes this way, so that the program's
+    // arguments — and with them the amount of work done before the workers start, which shifts the
+    // interpreter's scheduling decisions — do not depend on where the file happens to be stored.
+    let text = if path == "-" {
+        let mut s = String::new();
+        std::io::Read::read_to_string(&mut std::io::stdin(), &mut s).unwrap_or_else(|e| {
+            eprintln!("HARNESS: cannot read standard input: {}", e);
+            std::process::exit(2);
+        });
+        s
+    } else {
+        std::fs::read_to_string(path).unwrap_or_else(|e| {
+            eprintln!("HARNESS: cannot read {}: {}", path, e);
+            std::process::exit(2);
+        })
+    };
     let mut hdr = BTreeMap::new();
     let mut ev = Vec::new();
     for line in text.lines() {
